@@ -500,6 +500,7 @@ def parse_body(m, f):
             ins.ops=[a,b]; ins.x = idx; ins.ty = a.t
         elif op == 'atomicrmw':
             ts.accept('volatile'); ins.x = ts.next()[1]; p = parse_tv(ts); ts.expect(','); v = parse_tv(ts); ins.ops=[p,v]; ins.ty = v.t
+            ins.c = ts.peek()[1] if (not ts.eof() and ts.peek()[0] == 'word') else 'seq_cst'
         elif op == 'cmpxchg':
             ts.accept('weak'); ts.accept('volatile'); p = parse_tv(ts); ts.expect(','); c = parse_tv(ts); ts.expect(','); n = parse_tv(ts); ins.ops=[p,c,n]
             ins.ty = T('struct', [c.t, I(1)], False)
